@@ -131,6 +131,7 @@ func (fc *fileController) acquireWriter(ctx context.Context) (uint16, int64, xio
 	for fileKey, w := range fc.writers.open {
 		s, err := fc.FS.Stat(fileKeyToName(fileKey))
 		if err != nil {
+			fc.writers.RUnlock()
 			return 0, 0, nil, err
 		}
 		size := s.Size()
